@@ -325,10 +325,9 @@ def obligations(tier, seed):
     if not q:
         for mode in ('sigma_scalar', 'sigma_array', 'invvar'):
             obs.append(ob_reject(3, mode, True, True, False, False, 0))
-            if mode != 'sigma_array':     # (n=3, every mask combination, sticky + maxdev with a sigma array: 54 000 paths, over the time budget)
-                obs.append(ob_reject(3, mode, True, False, True, True, 0))
+            obs.append(ob_reject(3, mode, True, False, True, True, 0))
         obs.append(ob_reject(5, 'sigma_scalar', True, True, False, False, 1, maskpat=(0b11011, 0b11111)))
-        obs.append(ob_reject(5, 'sigma_scalar', True, True, False, True, 2, use_inmask=False, maskpat=(0, 0b10111)))
+        obs.append(ob_reject(5, 'sigma_scalar', True, True, True, True, 2, use_inmask=False, maskpat=(0, 0b10111)))
         obs.append(ob_reject(6, 'sigma_array', False, True, False, False, 2, use_inmask=False, maskpat=(0, 0b111111)))
         obs.append(ob_reject(4, 'invvar', True, True, False, True, 1, maskpat=(0b1110, 0b0111)))
         obs.append(ob_reject(4, 'sigma_scalar', True, False, False, False, 3, use_inmask=False, maskpat=(0, 0b1111)))
@@ -362,7 +361,7 @@ def obligations(tier, seed):
         obs.append(ob_skymask(1, 4, 'i4', 2))
     if not q:
         obs.append(ob_skymask(1, 5, 'i4', 2))
-        obs.append(ob_skymask(2, 3, 'i8', 1))
+        obs.append(ob_skymask(2, 4, 'i8', 1))
     return obs
 
 
